@@ -161,6 +161,11 @@ func judge(tp *Tape, base time.Time, skew time.Duration, all []rec, res *core.Re
 			continue
 		}
 		outcome = append(outcome, r.Out[:1])
+		if r.Out == "error" && r.InWindow {
+			// path=verify: a valid, in-window, minted request was refused for another reason than
+			// replay or skew (or the verifier panicked)
+			engine.Violate(res, "verify-path-refused-valid-request", r)
+		}
 		if r.Out == "skew" || r.Out == "error" {
 			if r.Out == "skew" && r.InWindow {
 				// path=verify only: the service refused an in-window authenticator as skewed
